@@ -307,6 +307,187 @@ end
 end Scion.Net
 
 namespace Scion.Net
+open Scion.SegID (updateSegID extractBeta xorAll calculateBeta)
+
+/-- everything the run lemmas need to know about an edge used in construction direction -/
+theorem down_edge_facts (mac : MacFn) (net : Net) (e : Edge) (hdown : e.down = true)
+    (hpeer : e.peer = none) (hval : e.Valid mac net) :
+    ∃ pre x mid last,
+      edgeSeg e = some ⟨⟨true, false, extractBeta e.seg.s0 (sig pre), e.seg.ts⟩,
+        (x :: (mid ++ [last])).map (fun y => hopOf y.hop)⟩ ∧
+      Chain mac net e.core e.seg.ts (extractBeta e.seg.s0 (sig pre)) (x :: (mid ++ [last])) ∧
+      e.ases = (x :: (mid ++ [last])).map (·.ia) ∧
+      edgeIfaces e = (x.ia, x.hop.cEg) ::
+        ((firstOf mid last).ia, (firstOf mid last).hop.cIn) :: downTrace mid last := by
+  obtain ⟨hreg, _, _, hlen, _⟩ := hval
+  obtain ⟨pre, x, mid, last, hent, hpl⟩ := edge_split e (hlen hpeer)
+  obtain ⟨hchain, _, ⟨last', hlast', hlast0⟩, _⟩ := registered_chain mac net e.core e.seg hreg
+  rw [hent] at hchain
+  have hl' : last' = last := by
+    rw [hent, getLast?_pre_cons_snoc] at hlast'; cases hlast'; rfl
+  subst hl'
+  have hdrop : e.seg.entries.drop e.shortcut = x :: (mid ++ [last']) := by
+    rw [hent, ← hpl]; simp
+  have hcalc : calculateBeta true e.shortcut false e.seg.s0 (sigmas e.seg) =
+      some (extractBeta e.seg.s0 (sig pre)) := by
+    rw [sigmas_eq, hent, ← hpl]
+    have := Scion.SegID.calc_down e.seg.s0 (sig pre) (pfx x.hop.mac) (sig (mid ++ [last'])) false
+    simpa [sig] using this
+  have hc1 := chain_drop mac net e.core e.seg.ts e.seg.s0 pre _ hchain
+  refine ⟨pre, x, mid, last', ?_, hc1, ?_, ?_⟩
+  · simp [edgeSeg, edgeHops, hdown, hpeer, hdrop, hcalc]
+  · simp [Edge.ases, Edge.used, hdown, hdrop]
+  · have hce := chain_ceg_ne mac net e.core e.seg.ts (x :: mid) (extractBeta e.seg.s0 (sig pre)) last'
+      (by simpa using hc1)
+    have hx0 : x.hop.cEg ≠ 0 := hce x (by simp)
+    have := ifaces_down_tail mid last' (fun y hy => hce y (by simp [hy])) hlast0
+    simp only [edgeIfaces, hdrop, hpeer, hdown, if_true, hx0, ne_eq, not_false_eq_true, this]
+    simp
+
+/-- … and about an edge used against construction direction -/
+theorem up_edge_facts (mac : MacFn) (net : Net) (e : Edge) (hdown : e.down = false)
+    (hpeer : e.peer = none) (hval : e.Valid mac net) :
+    ∃ b top r x,
+      edgeSeg e = some ⟨⟨false, false, updateSegID b (pfx top.hop.mac), e.seg.ts⟩,
+        (top :: (r ++ [x])).map (fun y => hopOf y.hop)⟩ ∧
+      ChainUp mac net e.core e.seg.ts b (top :: (r ++ [x])) ∧
+      e.ases = (top :: (r ++ [x])).map (·.ia) ∧
+      edgeIfaces e = (top.ia, top.hop.cIn) ::
+        ((firstOf r x).ia, (firstOf r x).hop.cEg) :: upTrace r x := by
+  obtain ⟨hreg, _, _, hlen, _⟩ := hval
+  obtain ⟨pre, x, mid, last, hent, hpl⟩ := edge_split e (hlen hpeer)
+  obtain ⟨hchain, _, ⟨last', hlast', hlast0⟩, _⟩ := registered_chain mac net e.core e.seg hreg
+  rw [hent] at hchain
+  have hl' : last' = last := by
+    rw [hent, getLast?_pre_cons_snoc] at hlast'; cases hlast'; rfl
+  subst hl'
+  have hdrop : e.seg.entries.drop e.shortcut = x :: (mid ++ [last']) := by
+    rw [hent, ← hpl]; simp
+  have hcalc : calculateBeta false e.shortcut false e.seg.s0 (sigmas e.seg) =
+      some (updateSegID (extractBeta e.seg.s0 (sig pre)) (pfx x.hop.mac) ^^^ xorAll (sig mid)) := by
+    rw [sigmas_eq, hent, ← hpl]
+    have := Scion.SegID.calc_up_multi e.seg.s0 (sig pre) (pfx x.hop.mac) (pfx last'.hop.mac) (sig mid) false
+    simpa [sig] using this
+  have hc1 := chain_drop mac net e.core e.seg.ts e.seg.s0 pre _ hchain
+  have hup := chain_to_up mac net e.core e.seg.ts _ _ hc1
+  have hrev : (x :: (mid ++ [last'])).reverse = last' :: (mid.reverse ++ [x]) := by simp
+  rw [hrev] at hup
+  have hseg : updateSegID (extractBeta (extractBeta e.seg.s0 (sig pre)) (sig (x :: (mid ++ [last']))))
+        (pfx last'.hop.mac) =
+      updateSegID (extractBeta e.seg.s0 (sig pre)) (pfx x.hop.mac) ^^^ xorAll (sig mid) := by
+    rw [Scion.SegID.extractBeta_eq _ (sig (x :: (mid ++ [last'])))]
+    simp only [sig, List.map_cons, List.map_append, List.map_nil, Scion.SegID.xorAll,
+      Scion.SegID.xorAll_append, updateSegID, Nat.xor_zero]
+    rw [← Nat.xor_assoc, ← Nat.xor_assoc, Scion.SegID.xor_cancel]
+  refine ⟨_, last', mid.reverse, x, ?_, hup, ?_, ?_⟩
+  · rw [hseg]
+    simp [edgeSeg, edgeHops, hdown, hpeer, hdrop, hcalc, List.map_reverse]
+  · simp [Edge.ases, Edge.used, hdown, hdrop, List.map_reverse]
+  · have hce := chain_ceg_ne mac net e.core e.seg.ts (x :: mid) (extractBeta e.seg.s0 (sig pre)) last'
+      (by simpa using hc1)
+    have hx0 : x.hop.cEg ≠ 0 := hce x (by simp)
+    have h1 := ifaces_down_tail mid last' (fun y hy => hce y (by simp [hy])) hlast0
+    have h2 := downTrace_reverse mid x last'
+    simp only [edgeIfaces, hdrop, hpeer, hdown, hx0, ne_eq, not_false_eq_true, if_true,
+      h1, Bool.false_eq_true, if_false]
+    have h3 : [(x.ia, x.hop.cEg)] ++ ((firstOf mid last').ia, (firstOf mid last').hop.cIn) ::
+        downTrace mid last' = downTrace (x :: mid) last' := by simp [downTrace]
+    rw [h3, h2]
+    simp [upTrace]
+
+/-- **C02, up segment + down segment joined at a common AS** (no peering): includes the
+    child–child shortcut, where both segments are cut at an AS below the core -/
+theorem xover_up_down (mac : MacFn) (net : Net) (now src dst : Nat)
+    (hWF : WFNet net) (hUp : AllUp net) (hSR : SingleRouter net)
+    (eu ed : Edge) (c : Cursor)
+    (hud : eu.down = false) (huc : eu.core = false) (hup : eu.peer = none)
+    (hdd : ed.down = true) (hdc : ed.core = false) (hdp : ed.peer = none)
+    (hJ : Joinable mac net [eu, ed] src dst) (hp : pathOf [eu, ed] = some c)
+    (hexp : Unexpired now c) :
+    ∃ cf, send mac net now src dst c = .delivered dst (pathIfaces [eu, ed]) cf := by
+  obtain ⟨_, _, hval, hjoints, _, hhead, hlast, hnd⟩ := hJ
+  obtain ⟨b, top, r, xU, hsU, hcU, haU, hiU⟩ := up_edge_facts mac net eu hud hup (hval eu (by simp))
+  obtain ⟨pre, xD, mid, last, hsD, hcD, haD, hiD⟩ := down_edge_facts mac net ed hdd hdp (hval ed (by simp))
+  rw [huc] at hcU
+  -- the joint
+  have hjoint : xU.ia = xD.ia := by
+    have hj := hjoints.1
+    simp only [Joint, hup, hdp] at hj
+    rw [haU, haD] at hj
+    rw [List.map_cons, List.map_append, List.map_cons, List.map_nil, getLast?_cons_snoc] at hj
+    simpa using hj.1
+  -- ASes on the path
+  have hases : pathASes [eu, ed] = (top :: r).map (·.ia) ++ (xD :: (mid ++ [last])).map (·.ia) := by
+    simp only [pathASes, hup, Option.isSome_none, Bool.false_eq_true, if_false, haU, haD]
+    have : (List.map (fun x => x.ia) (top :: (r ++ [xU]))).dropLast = (top :: r).map (·.ia) := by
+      rw [show top :: (r ++ [xU]) = (top :: r) ++ [xU] by simp, List.map_append]
+      exact List.dropLast_concat
+    rw [this]
+  rw [hases] at hhead hlast hnd
+  have hsrc : src = top.ia := by simp at hhead; exact hhead.symm
+  have hdst : dst = last.ia := by
+    rw [List.getLast?_append, List.map_cons, List.map_append, List.map_cons, List.map_nil,
+      getLast?_cons_snoc] at hlast
+    simp at hlast; exact hlast.symm
+  have hnd' : ((top :: (r ++ [xU])).map (·.ia) ++ (mid ++ [last]).map (·.ia)).Nodup := by
+    have : (top :: (r ++ [xU])).map (·.ia) ++ (mid ++ [last]).map (·.ia) =
+        (top :: r).map (·.ia) ++ (xD :: (mid ++ [last])).map (·.ia) := by
+      simp [hjoint]
+    rw [this]; exact hnd
+  -- the packet
+  have hc : c = ⟨[], ⟨false, false, updateSegID b (pfx top.hop.mac), eu.seg.ts⟩, [], hopOf top.hop,
+      (r ++ [xU]).map (fun e => hopOf e.hop),
+      [⟨⟨true, false, extractBeta ed.seg.s0 (sig pre), ed.seg.ts⟩,
+        (xD :: (mid ++ [last])).map (fun e => hopOf e.hop)⟩]⟩ := by
+    simp [pathOf, segsOf, hsU, hsD, startCursor] at hp
+    rw [← hp]; simp
+  have hexpU : ∀ e ∈ top :: (r ++ [xU]), expired now eu.seg.ts e.hop.exp = false := by
+    intro y hy
+    have := hexp ⟨⟨false, false, updateSegID b (pfx top.hop.mac), eu.seg.ts⟩,
+      hopOf top.hop :: (r ++ [xU]).map (fun e => hopOf e.hop)⟩
+      (by rw [hc]; simp [Cursor.segs, Cursor.curSeg]) (hopOf y.hop)
+      (by
+        simp only [List.mem_cons] at hy ⊢
+        rcases hy with rfl | hy
+        · left; rfl
+        · right; exact List.mem_map.2 ⟨y, hy, rfl⟩)
+    simpa [hopOf] using this
+  have hexpD : ∀ e ∈ xD :: (mid ++ [last]), expired now ed.seg.ts e.hop.exp = false := by
+    intro y hy
+    have := hexp ⟨⟨true, false, extractBeta ed.seg.s0 (sig pre), ed.seg.ts⟩,
+      (xD :: (mid ++ [last])).map (fun e => hopOf e.hop)⟩
+      (by rw [hc]; simp [Cursor.segs, Cursor.curSeg]) (hopOf y.hop)
+      (List.mem_map.2 ⟨y, hy, rfl⟩)
+    simpa [hopOf] using this
+  obtain ⟨cf, hrun⟩ := up_down_run mac net now src dst eu.seg.ts hWF hUp hSR ed.core ed.seg.ts b top r xU hcU
+    (extractBeta ed.seg.s0 (sig pre)) xD mid last hcD hdc hjoint hsrc hdst hnd' hexpU hexpD
+    (r.length + mid.length + 7)
+  refine ⟨cf, ?_⟩
+  -- entry router and fuel
+  have hne : r ++ [xU] = firstOf r xU :: (r ++ [xU]).tail := by
+    cases r <;> simp [firstOf]
+  have hcU' := hcU
+  rw [hne] at hcU'
+  simp only [ChainUp] at hcU'
+  obtain ⟨_, ⟨f1, hf1, _, hf1n, hf1i, _⟩, _⟩ := hcU'
+  obtain ⟨_, _, g1, hg1, _, _, _⟩ := hWF _ _ _ hf1
+  rw [hf1n, hf1i] at hg1
+  have hentry : entryRouter net src c = 0 := by
+    rw [hc, hsrc]
+    simp [entryRouter, hopOf, hg1, hSR _ _ _ hg1]
+  have hfuel : fuelFor c = r.length + mid.length + 7 + 3 + r.length + mid.length := by
+    rw [hc]
+    simp [fuelFor, toFlat, Cursor.segs, Cursor.curSeg]
+    omega
+  have hif : pathIfaces [eu, ed] =
+      ((top.ia, top.hop.cIn) :: ((firstOf r xU).ia, (firstOf r xU).hop.cEg) :: upTrace r xU) ++
+      ((xD.ia, xD.hop.cEg) :: ((firstOf mid last).ia, (firstOf mid last).hop.cIn) ::
+        downTrace mid last) := by
+    simp [pathIfaces, hiU, hiD]
+  rw [hif]
+  unfold send
+  rw [hentry, hfuel, hc]
+  exact hrun
 
 theorem nodup_rev {α} (l : List α) (h : l.Nodup) : l.reverse.Nodup := by
   simpa [List.Nodup, List.pairwise_reverse] using h.imp (fun hab => Ne.symm hab)
